@@ -531,7 +531,17 @@ pub fn gen_script(r: &mut Rng, name: &str, metric: &str, dim: usize, lim: &Limit
         let mut s = sq(gv(r), 1000);
         s.ns = "n1".into();
         s.filter = Some(F::Not(Some(Box::new(F::Exact("a".into(), "b".into())))));
-        p(Op::Search(s), lab("Search", "k-x-oversampling", "k=1000,ns,not"));
+        p(Op::Search(s.clone()), lab("Search", "k-x-oversampling", "k=1000,ns,not"));
+        // the same extreme-but-valid request, and the overflowing query, several times in a row: whatever
+        // they make the tiers do must not add up (failure counters, breakers) to a server that stops serving
+        for n in 0..3 {
+            p(Op::Search(s.clone()), lab("Search", "k-x-oversampling-repeated", &n.to_string()));
+        }
+        if let Some((_, v)) = kinds.iter().find(|(nm, _)| nm.contains("overflow")) {
+            for n in 0..4 {
+                p(Op::Search(sq(Vecr::of(v), 3)), lab("Search", "overflowing-query-repeated", &n.to_string()));
+            }
+        }
     }
     // ---- BulkSearch
     let ok = sq(Vecr::of(&good[0]), 1);
